@@ -132,6 +132,7 @@ Proof.
   - destruct lhs; try fin. apply IT.
   - destruct lhs; try fin. destruct (all_maps l); [apply IT|apply ITP].
   - destruct lhs; try fin. apply IT.
+  - destruct lhs; try fin. apply (IT keep_where _ (fun out => VMap (pairs_to_map out))).
   - destruct lhs; try fin. apply IT.
 Qed.
 
@@ -191,13 +192,16 @@ Proof.
     + fin.
   - apply transform_ext, E.
   - apply oeq_bind; [apply Hext; exact E|]. intros cv a1 b1 E1. cbn beta iota. destruct (getB cv); apply Hext, E1.
-  - unfold eval_call. destruct (assoc String.eqb fn vs) as [vw|].
+  - rewrite !eval_call_eq. destruct (assoc String.eqb fn vs) as [vw|].
     + destruct (negb (Nat.eqb (List.length (v_params vw)) (List.length args))); [fin|].
       apply oeq_bind; [apply seq_ext; exact E|]. intros avs a1 b1 E1. cbn beta iota.
       destruct (ev (bind_params (v_params vw) avs []) (v_body vw)) as [[r s]| | |]; cbn [bind]; fin.
-    + destruct (is_dot_func fn) as [f|]; [|fin]. destruct (String.eqb f "count"); [|fin].
-      destruct args as [|a0 args]; [fin|].
-      apply oeq_bind; [apply Hext; exact E|]. intros c a1 b1 E1. cbn beta iota. destruct c; fin.
+    + destruct (is_dot_func fn) as [f|].
+      * unfold call_dot. destruct (String.eqb f "count"); [|fin].
+        destruct args as [|a0 args]; [fin|].
+        apply oeq_bind; [apply Hext; exact E|]. intros c a1 b1 E1. cbn beta iota. destruct c; fin.
+      * unfold call_go_func. apply oeq_bind; [apply seq_ext; exact E|]. intros avs a1 b1 E1. cbn beta iota.
+        apply oeq_bind_same. intros r. fin.
   - apply oeq_bind; [apply Hext; exact E|]. intros v a1 b1 E1. cbn beta iota.
     destruct (assoc unop_eqb op unary_functions); [|fin]. apply oeq_bind_same. intros r. fin.
   - unfold eval_binexpr.
@@ -408,3 +412,30 @@ Example where_is_filter_applies :
        (EBin OpWHERE (ELit (VList [VInt 1; VInt 5; VInt 3])) (EBin OpGT (EName "v") (EName "k") "") "v")
   = Ok (VList [VInt 5; VInt 3], [("v", VStr "outer"); ("k", VInt 2)]).
 Proof. vm_compute. reflexivity. Qed.
+
+(* ================= purity as repeatability (deepen round 3) ================= *)
+(* an expression without a `let` of its own (its callees may have any: they run in their own scope) leaves the scope,
+   as a map, exactly as it found it - nested transforms, where / flatten, recursive views included *)
+Theorem eval_let_free_scope : forall fuel vs sc e v sc',
+  eval fuel vs sc e = Ok (v, sc') -> lets e = [] -> sget implied_result sc = None -> sc_eq sc' sc.
+Proof.
+  intros fuel vs sc e v sc' H L N x.
+  apply (eval_preserves_gen fuel vs _ _ _ _ x H); [rewrite L; intros []|intros _; exact N].
+Qed.
+
+(* ... so evaluating it a second time, in the scope the first evaluation left, gives the same value and the same scope:
+   in particular a view called twice with the same (let-free) arguments *)
+Theorem eval_twice : forall fuel vs sc e v sc',
+  eval fuel vs sc e = Ok (v, sc') -> lets e = [] -> sget implied_result sc = None ->
+  exists sc'', eval fuel vs sc' e = Ok (v, sc'') /\ sc_eq sc'' sc.
+Proof.
+  intros fuel vs sc e v sc' H L N. pose proof (eval_let_free_scope _ _ _ _ _ _ H L N) as E.
+  pose proof (eval_ext fuel vs sc' sc e E) as X. rewrite H in X.
+  destruct (eval fuel vs sc' e) as [[v2 s2]| | |]; cbn in X; try contradiction.
+  destruct X as [-> S]. exists s2. split; [reflexivity|]. intros x. rewrite S. apply E.
+Qed.
+
+Theorem call_twice : forall fuel vs sc fn args v sc',
+  eval fuel vs sc (ECall fn args) = Ok (v, sc') -> lets_list args = [] -> sget implied_result sc = None ->
+  exists sc'', eval fuel vs sc' (ECall fn args) = Ok (v, sc'') /\ sc_eq sc'' sc.
+Proof. intros fuel vs sc fn args v sc' H L N. apply (eval_twice _ _ _ _ _ _ H); [rewrite lets_call; exact L|exact N]. Qed.
